@@ -134,8 +134,44 @@ def do_case(ctx, inp):
                    norm=lambda ans: {"select": sorted(ans["select"]), "cols": [[c[0], c[1], None] for c in ans["cols"]]})
 
 
+def do_coincident(ctx, inp):
+    """a defaulted choice whose generated non-default branch coincides (same id, equal definition) with a plain sub-rule of
+    another rule.  Which of the two equal objects the library keeps is its own business (DESIGN §12) — but the default
+    priorities it reports and the objective it hands to the solver must tell the same story: columns with equal default
+    priority get equal weights, a column with a lower default priority a strictly lower weight (no user priorities)."""
+    a = inp["ast"]
+    o = build(a)
+    if o.errors():
+        ctx.skip("coincident-configurator-rejected-by-validation"); return
+    ctx.case(inp, True, {"coincident-non-default-branch"})
+    rec = Recorder(None)
+    try:
+        list(o.select({}, solver=rec, only_leafs=False))
+    except Exception as e:
+        ctx.fail("select-raised", {"exception": f"{type(e).__name__}: {str(e)[:160]}"}); return
+    poly, objs = rec.calls[0][0], rec.calls[0][1]
+    ids = [v.id for v in poly.A.variables]
+    dp = o.default_prios
+    w = [int(x) for x in objs[0]]
+    for i, a_ in enumerate(ids):
+        for j, b_ in enumerate(ids):
+            if a_ in dp and b_ in dp and ((dp[a_] < dp[b_]) != (w[i] < w[j]) or (dp[a_] == dp[b_]) != (w[i] == w[j])):
+                ctx.fail("objective-entry-misaligned", {"columns": [str(a_), str(b_)], "default_prios": [dp[a_], dp[b_]], "weights": [w[i], w[j]],
+                                                        "note": "no user priorities: the weights must order the columns as default_prios does"})
+                return
+
+
 def run(ctx):
     rng = ctx.rng
+    for _ in range((40 if ctx.quick else 300) * (3 if ctx.search else 1)):
+        its = rng.sample("abcdefgh", 5)
+        lf = lambda n: {"c": "str", "id": n}
+        r1, r2 = rng.sample(["B", "P", "R", "K"], 2)
+        choice = {"c": rng.choice(["ccAny", "ccXor"]), "id": r1, "args": [lf(its[0]), lf(its[1]), lf(its[2])], "default": [its[2]]}
+        plain = {"c": "Any", "args": [lf(its[0]), lf(its[1])]}
+        other = {"c": "Imply", "id": r2, "cond": lf(its[3]), "cons": plain} if rng.random() < 0.6 else {"c": "Any", "id": r2, "args": [plain, lf(its[4])]}
+        rules = [choice, other]; rng.shuffle(rules)
+        do_coincident(ctx, {"ast": {"c": "Stingy", "id": "M", "args": rules}})
     n = (450 if ctx.quick else 3000) * (3 if ctx.search else 1)
     for _ in range(n):
         if rng.random() < 0.5:
